@@ -101,7 +101,13 @@ def outputs_of(d, cfg):
     return {p.name: p.read_bytes() for p in d.iterdir() if p.name not in skip and not p.name.endswith(".tmp")}
 
 
-def sentinel(name):
+def sentinel(name, kind="text"):
+    """what a pre-existing file holds: some text; NOTHING (a zero-length file left by `touch` / an aborted run); or far more bytes
+    than the run writes (an old tail must not survive a rewrite)"""
+    if kind == "empty":
+        return b""
+    if kind == "long":
+        return (b"OLD CONTENT OF " + name.encode() + b"\n") * 4000
     return b"OLD CONTENT OF " + name.encode() + b"\n"
 
 
@@ -179,44 +185,45 @@ def check_config(ctx, sc, tag, cfg, write_log, subsets_budget):
             continue
         seen.add(key)
         for clobber in (False, True):
-            d = setup_dir(sc, next(tag), cfg)
-            for x in S:
-                (d / x).write_bytes(sentinel(x))
-            res, opens = run_cli(d, cfg, clobber, write_log)
-            after = outputs_of(d, cfg)
-            inp = dict(base, outputs_in_open_order=order, preexisting=S, clobber=clobber)
-            sig = (base["format"], write_log, n, tuple(order.index(x) for x in S), clobber)
-            real_fs = sorted([x, ("old" if after[x] == sentinel(x) else "new")] for x in after)
-            real = {"exit": 1 if res.exit_code != 0 else 0, "fs": real_fs}
-            reqs.append({"id": 0, "kind": "outputs", "clobber": clobber, "existing": S, "outputs": order})
-            meta.append((inp, real, sig))
-            text = (res.output or "") + (res.stderr if getattr(res, "stderr_bytes", None) else "")
-            logn = str(Path(cfg["out"]).with_suffix(".log"))
-            logf = d / logn
-            if logf.exists() and after.get(logn) != sentinel(logn):
-                text += logf.read_text(errors="replace")
-            if not clobber:
-                if res.exit_code == 0:
-                    out.oracle_fail("no-clobber", inp, "run succeeded although output files already existed")
-                for x in S:
-                    if after.get(x) != sentinel(x):
-                        out.oracle_fail("no-clobber", inp, f"pre-existing file {x} was altered under --no-clobber")
-                        break
-                if res.exit_code != 0 and not any(x in text for x in S):
-                    out.oracle_fail("no-clobber", inp, "the error does not name a colliding file", detail={"output": text[-400:]})
-                if any("w" in m for nme, m in opens if nme in O):
-                    out.oracle_fail("no-clobber", inp, f"an output was opened with a truncating mode under --no-clobber: {opens}")
-            else:
-                if res.exit_code != 0:
-                    out.oracle_fail("clobber", inp, f"--clobber run failed (exit {res.exit_code})")
-                else:
-                    for x in names:
-                        if x.endswith(".log"):
-                            if x not in after or sentinel(x).strip() in after[x]:
-                                out.oracle_fail("clobber", inp, "log file not completely rewritten under --clobber (old content survives)")
-                        elif after.get(x) != O[x]:
-                            out.oracle_fail("clobber", inp, f"output {x} not completely rewritten under --clobber")
-                            break
+          for skind in (("text", "empty", "long") if (len(S) == len(names) or len(S) == 1) else (rng.choice(["text", "empty", "long"]),)):
+              d = setup_dir(sc, next(tag), cfg)
+              for x in S:
+                  (d / x).write_bytes(sentinel(x, skind))
+              res, opens = run_cli(d, cfg, clobber, write_log)
+              after = outputs_of(d, cfg)
+              inp = dict(base, outputs_in_open_order=order, preexisting=S, clobber=clobber, preexisting_content=skind)
+              sig = (base["format"], write_log, n, tuple(order.index(x) for x in S), clobber, skind)
+              real_fs = sorted([x, ("old" if (x in S and after[x] == sentinel(x, skind)) else "new")] for x in after)
+              real = {"exit": 1 if res.exit_code != 0 else 0, "fs": real_fs}
+              reqs.append({"id": 0, "kind": "outputs", "clobber": clobber, "existing": S, "outputs": order})
+              meta.append((inp, real, sig))
+              text = (res.output or "") + (res.stderr if getattr(res, "stderr_bytes", None) else "")
+              logn = str(Path(cfg["out"]).with_suffix(".log"))
+              logf = d / logn
+              if logf.exists() and after.get(logn) != sentinel(logn, skind):
+                  text += logf.read_text(errors="replace")
+              if not clobber:
+                  if res.exit_code == 0:
+                      out.oracle_fail("no-clobber", inp, "run succeeded although output files already existed")
+                  for x in S:
+                      if after.get(x) != sentinel(x, skind):
+                          out.oracle_fail("no-clobber", inp, f"pre-existing file {x} was altered under --no-clobber")
+                          break
+                  if res.exit_code != 0 and not any(x in text for x in S):
+                      out.oracle_fail("no-clobber", inp, "the error does not name a colliding file", detail={"output": text[-400:]})
+                  if any("w" in m for nme, m in opens if nme in O):
+                      out.oracle_fail("no-clobber", inp, f"an output was opened with a truncating mode under --no-clobber: {opens}")
+              else:
+                  if res.exit_code != 0:
+                      out.oracle_fail("clobber", inp, f"--clobber run failed (exit {res.exit_code})")
+                  else:
+                      for x in names:
+                          if x.endswith(".log"):
+                              if x not in after or (sentinel(x, skind).strip() in after[x] if skind != "empty" else len(after[x]) == 0):
+                                  out.oracle_fail("clobber", inp, "log file not completely rewritten under --clobber (old content survives)")
+                          elif after.get(x) != O[x]:
+                              out.oracle_fail("clobber", inp, f"output {x} not completely rewritten under --clobber")
+                              break
     ms = ctx.driver.batch(reqs) if ctx.driver else [None] * len(reqs)
     for (inp, real, sig), m in zip(meta, ms):
         if m is not None:
